@@ -564,9 +564,7 @@ pub fn build_raw(lang: &Lang, events: &[Ev], crlf: bool) -> Built {
                 let own_lines = c.form == Form::Block && lang.block.is_some_and(|(o, _)| o == "=begin");
                 // a Markdown comment inside a block quote / list item: marker on the first line, the
                 // container's continuation prefix on the following ones
-                // (multi-line comments only in list items: a block quote's `>` continuation markers would
-                // become part of the comment's raw text, where a `>` ends a tag)
-                let in_container = md_form && c.container != 0 && (one_line || (c.form == Form::MdHtml && matches!(c.container, 2 | 3)));
+                let in_container = md_form && c.container != 0 && (one_line || c.form == Form::MdHtml);
                 let ind = if own_lines {
                     String::new()
                 } else if in_container {
